@@ -82,7 +82,16 @@ pub enum Which {
 fn gen_prog(rng: &mut TestRng, i: usize, which: Which) -> ChainProg {
     let mac = if which == Which::C19 { ["join", "try_join", "join_async", "try_join_async"][i % 4] } else { MACROS[i % 12] };
     let kind = macro_kind(mac);
-    let fam = if kind.is_async { Family::AsyncClosed } else { Family::Sync };
+    let real_ok = |c: Comb| matches!(c, Comb::Map | Comb::AndThen | Comb::Filter | Comb::Dot | Comb::Then | Comb::OrElse | Comb::MapErr | Comb::Collect | Comb::Chain | Comb::FilterMap | Comb::Enumerate | Comb::Flatten | Comb::Fold | Comb::TryFold | Comb::Zip | Comb::Unzip | Comb::Inspect);
+    let forced_comb = match which {
+        Which::C01 | Which::C10 => Some(SPELLINGS[i % 22].1),
+        Which::C02 => Some(WRAPPERS[(i / 3) % 10]),
+        _ => None,
+    };
+    let wrapper_real_ok = |c: Comb| matches!(c, Comb::Map | Comb::AndThen | Comb::Filter | Comb::Inspect | Comb::FilterMap | Comb::OrElse | Comb::MapErr);
+    let can_real = matches!(which, Which::C01 | Which::C02) && forced_comb.map(|c| if which == Which::C02 { wrapper_real_ok(c) } else { real_ok(c) }).unwrap_or(true);
+    // async macros: half of the programs run over real futures / streams, half over sync chains closed with `-> ready`
+    let fam = if kind.is_async { if can_real && (i / 12) % 2 == 1 { Family::AsyncReal } else { Family::AsyncClosed } } else { Family::Sync };
     let mut nb = 1 + (rng.random_range(0..6usize) / 3) + if rb(rng, 0.15) { 1 } else { 0 }; // mostly 1-2, sometimes 3
     if which == Which::C19 {
         nb = rng.random_range(1..8usize); // wide joins too
@@ -124,7 +133,7 @@ fn gen_prog(rng: &mut TestRng, i: usize, which: Which) -> ChainProg {
             nest_log: vec![],
             wrappers: if which == Which::C02 { 0.3 } else { 0.12 },
             shapes: true,
-            allow_deferred: !kind.is_try && !kind.is_async,
+            allow_deferred: !kind.is_try && (!kind.is_async || fam == Family::AsyncReal),
             // Soundness rule (DESIGN 7.3): a hoisted `Copy` capture used inside a non-move wrapper closure is
             // borrowed; the borrowing value (e.g. a lazy iterator) must not leave a thread / task
             spawn_async: kind.is_async || kind.is_spawn,
@@ -135,6 +144,31 @@ fn gen_prog(rng: &mut TestRng, i: usize, which: Which) -> ChainProg {
         // in the async-closed family some wrappers do not exist for every type: fall back below
         let (mut init_ty, mut ops) = init_for(&mut g, if b == 0 { force.map(|f| f.0) } else { None }, which == Which::C02);
         let mut init_text = format!("inp::<{}>({})", init_ty.name(), b);
+        if fam == Family::AsyncReal {
+            // sources: a ready future of a value / Result, or a stream over a vector
+            let fc = if b == 0 { force.map(|f| f.0) } else { None };
+            let item = g.any_ty(1);
+            let want_stream = matches!(fc, Some(Comb::Filter) | Some(Comb::Collect) | Some(Comb::Chain) | Some(Comb::FilterMap) | Some(Comb::Enumerate) | Some(Comb::Fold) | Some(Comb::TryFold) | Some(Comb::Zip) | Some(Comb::Unzip));
+            let want_try = matches!(fc, Some(Comb::AndThen) | Some(Comb::OrElse) | Some(Comb::MapErr));
+            let k = g.rng.random_range(0..3);
+            ops.clear();
+            if want_stream || (!want_try && k == 0) {
+                let it = match fc {
+                    Some(Comb::TryFold) => Ty::Res(Box::new(item)),
+                    Some(Comb::Unzip) => Ty::Tup(Box::new(item), Box::new(g.any_ty(0))),
+                    _ => item,
+                };
+                init_text = format!("sinp::<{}>({})", it.name(), b);
+                init_ty = Ty::Stream(Box::new(it));
+            } else if want_try || k == 1 {
+                let r = Ty::Res(Box::new(item));
+                init_text = format!("finp::<{}>({})", r.name(), b);
+                init_ty = Ty::Fut(Box::new(r));
+            } else {
+                init_text = format!("finp::<{}>({})", item.name(), b);
+                init_ty = Ty::Fut(Box::new(item));
+            }
+        }
         let mut locals: Vec<String> = Vec::new();
         let mut borrowed = false;
         if which == Which::C17 && !(b == 0 && force.is_some()) && rb(g.rng, 0.35) {
@@ -165,7 +199,7 @@ fn gen_prog(rng: &mut TestRng, i: usize, which: Which) -> ChainProg {
         }
         // sometimes the initial value is an expression that binds weaker than a method call: the
         // documented chain applies the first combinator to the whole value
-        if !(b == 0 && force.is_some()) && !borrowed && rb(g.rng, 0.25) {
+        if !(b == 0 && force.is_some()) && !borrowed && fam != Family::AsyncReal && rb(g.rng, 0.25) {
             let (t, text) = match g.rng.random_range(0..5) {
                 0 => (Ty::I64, format!("inp::<i64>({}) + inp::<i64>({})", b, b + 50)),
                 1 => (Ty::I64, format!("-inp::<i64>({})", b)),
@@ -187,13 +221,46 @@ fn gen_prog(rng: &mut TestRng, i: usize, which: Which) -> ChainProg {
         };
         let (more, mut fin) = g.walk(&start, len, None, false);
         ops.extend(more);
+        if fam == Family::AsyncReal {
+            // never end on a nested future or a stream: flatten / collect; try macros need a future of Result
+            loop {
+                match fin.clone() {
+                    Ty::Fut(t) if matches!(*t, Ty::Fut(_)) => {
+                        ops.push(COp { comb: Comb::Flatten, alt: false, deferred: false, operands: vec![], inner: None, closed: true, out: (*t).clone() });
+                        fin = *t;
+                    }
+                    Ty::Stream(t) if matches!(*t, Ty::Stream(_)) => {
+                        ops.push(COp { comb: Comb::Flatten, alt: false, deferred: false, operands: vec![], inner: None, closed: true, out: (*t).clone() });
+                        fin = *t;
+                    }
+                    Ty::Stream(t) => {
+                        let v = Ty::Vec(t.clone());
+                        let o = Ty::Fut(Box::new(v.clone()));
+                        ops.push(COp { comb: Comb::Collect, alt: false, deferred: false, operands: vec![v.name()], inner: None, closed: true, out: o.clone() });
+                        fin = o;
+                    }
+                    _ => break,
+                }
+            }
+            if kind.is_try {
+                if let Ty::Fut(t) = fin.clone() {
+                    if !matches!(*t, Ty::Res(_)) {
+                        let y = Ty::Res(Box::new(g.any_ty(1)));
+                        let id = g.base + 901;
+                        let o = Ty::Fut(Box::new(y.clone()));
+                        ops.push(COp { comb: Comb::Map, alt: false, deferred: false, operands: vec![format!("cbf::<{}, {}>({})", t.name(), y.name(), id)], inner: None, closed: true, out: o.clone() });
+                        fin = o;
+                    }
+                }
+            }
+        }
         // never end on an iterator (not printable): collect
         if let Ty::Iter(t) = &fin {
             let out = Ty::Vec(t.clone());
             ops.push(COp { comb: Comb::Collect, alt: false, deferred: false, operands: vec![out.name()], inner: None, closed: true, out: out.clone() });
             fin = out;
         }
-        if let Some(gl) = &goal {
+        if let (Some(gl), true) = (&goal, fam != Family::AsyncReal) {
             let same_family = matches!((&fin, gl), (Ty::Opt(_), Ty::Opt(_)) | (Ty::Res(_), Ty::Res(_)));
             if !same_family {
                 let id = g.base + 900;
@@ -205,7 +272,12 @@ fn gen_prog(rng: &mut TestRng, i: usize, which: Which) -> ChainProg {
         if g.allow_deferred {
             for k in 0..ops.len() {
                 if k > 0 && rb(g.rng, 0.2) {
-                    ops[k].deferred = true;
+                    // a step of an async macro ends in a future that is awaited; the next step continues
+                    // from its output
+                    let ok = fam != Family::AsyncReal || matches!(&ops[k - 1].out, Ty::Fut(t) if !matches!(**t, Ty::Fut(_)));
+                    if ok {
+                        ops[k].deferred = true;
+                    }
                 }
             }
         }
@@ -218,7 +290,7 @@ fn gen_prog(rng: &mut TestRng, i: usize, which: Which) -> ChainProg {
                 let is_forced = b == 0 && which == Which::C02 && Some(ops[k].comb) == force.map(|f| f.0);
                 if is_forced {
                     match close_mode {
-                        1 if g.allow_deferred && k + 1 < n => {
+                        1 if g.allow_deferred && k + 1 < n && (fam != Family::AsyncReal || matches!(&ops[k].out, Ty::Fut(t) if !matches!(**t, Ty::Fut(_)))) => {
                             ops[k + 1].deferred = true;
                             ops[k].closed = false;
                         }
@@ -231,7 +303,7 @@ fn gen_prog(rng: &mut TestRng, i: usize, which: Which) -> ChainProg {
             }
         }
         // async-closed family: the branch must end in a future
-        if kind.is_async {
+        if kind.is_async && fam != Family::AsyncReal {
             ops.push(COp { comb: Comb::Then, alt: false, deferred: false, operands: vec!["ready".into()], inner: None, closed: true, out: fin.clone() });
             // an implicitly closed wrapper can no longer be last
             let n2 = ops.len();
@@ -242,7 +314,7 @@ fn gen_prog(rng: &mut TestRng, i: usize, which: Which) -> ChainProg {
         nestings.extend(g.nest_log.iter().cloned());
         branches.push(ChainBranch { locals, init_ty: init_ty.clone(), init_text: init_text.clone(), ops, fin });
     }
-    ChainProg { mac: mac.to_string(), branches, nestings }
+    ChainProg { fam, mac: mac.to_string(), branches, nestings }
 }
 
 fn strategy(i: usize, which: Which) -> impl Strategy<Value = ChainProg> {
@@ -275,7 +347,7 @@ fn hoist_ref(ops: &mut Vec<COp>, defs: &mut Vec<String>, counter: &mut usize) {
 
 pub fn case_code(p: &ChainProg, idx: usize) -> (String, usize, usize, bool) {
     let kind = macro_kind(&p.mac);
-    let fam = if kind.is_async { Family::AsyncClosed } else { Family::Sync };
+    let fam = p.fam;
     let n = p.branches.len();
     let body: Vec<String> = p.branches.iter().map(render_branch_macro).collect();
     let mut mac = String::new();
@@ -330,8 +402,9 @@ pub fn case_code(p: &ChainProg, idx: usize) -> (String, usize, usize, bool) {
             } else {
                 inner.push_str(&format!("    let {} = {};\n", name, e));
             }
-            // the next step continues from this value (moved: iterator adaptors take `&mut self`)
-            prev = format!("{{ {} }}", name);
+            // the next step continues from this value (moved: iterator adaptors take `&mut self`);
+            // in an async macro from a ready future of it
+            prev = if fam == Family::AsyncReal { format!("ready({{ {} }})", name) } else { format!("{{ {} }}", name) };
         }
     }
     let mut r = String::new();
@@ -369,11 +442,13 @@ pub fn case_code(p: &ChainProg, idx: usize) -> (String, usize, usize, bool) {
     (format!("{}{}", mac, r), ref_from, n_ops, concurrent)
 }
 
-pub const HEADER: &str = "#![allow(unused_imports, unused_variables, unused_mut, unused_parens, unused_braces, dead_code)]\n#![recursion_limit = \"1024\"]\nuse futures::future::ready;\nuse jvrt::chainrt::ChainCase;\n\n";
+pub const HEADER: &str = "#![allow(unused_imports, unused_variables, unused_mut, unused_parens, unused_braces, dead_code)]\n#![recursion_limit = \"1024\"]\nuse futures::future::ready;\nuse futures::{FutureExt, StreamExt, TryFutureExt, TryStreamExt};\nuse jvrt::chainrt::ChainCase;\n\n";
 
 fn case_src(p: &ChainProg, idx: usize) -> CaseSrc {
     let (code, ref_from, n_ops, concurrent) = case_code(p, idx);
-    CaseSrc { idx, code, table: format!("        ChainCase {{ idx: {}, mac: case_{}_mac, refn: case_{}_ref, n_ops: {}, concurrent: {} }},\n", idx, idx, idx, n_ops, concurrent), ref_from: Some(ref_from) }
+    let kind = macro_kind(&p.mac);
+    let short_circuit = kind.is_async && kind.is_try && p.branches.len() >= 2;
+    CaseSrc { idx, code, table: format!("        ChainCase {{ idx: {}, mac: case_{}_mac, refn: case_{}_ref, n_ops: {}, concurrent: {}, short_circuit: {} }},\n", idx, idx, idx, n_ops, concurrent, short_circuit), ref_from: Some(ref_from) }
 }
 
 fn main_text(cs: &[&CaseSrc]) -> String {
@@ -504,7 +579,7 @@ pub fn run(id: &str, tier: &str, seed: u64) -> i32 {
     };
     let mut ev = Evidence { property: id.to_string(), tier: tier.to_string(), seed, level: "exploration".into(), ..Default::default() };
     ev.rule = match which {
-        Which::C01 => "programs: typed chains (random walk over i64 / usize / bool / () / Option / Result<_, i64> / Vec / tuples / iterators, nesting <= 3), 1-3 independent chains per invocation, length 1-8 plus closing; program i is forced to contain operator spelling i mod 22 and uses macro name i mod 12 (async macros: a sync chain closed with `-> ready`, `??` meaning `.inspect`); operands fully typed, in varied shapes (call returning a closure, typed closure, closure with return type, parenthesised, macro call, block capture), `~` at random positions in the non-try sync macros; inputs: 8 boundary seeds + proptest-free hash-derived seeds building the initial values (None / Err / empty and non-empty vectors included). Oracle: differential against the documented method chain with the same operand text compiled in the same binary - Debug of the result, ordered callback-invocation trace (per branch when branches run on threads), multiset of all events; the macro side not compiling while the reference side does is a violation, the reverse is a generator bug (exit 2). Non-trivial = >= 2 operators and >= 1 callback invoked on that input",
+        Which::C01 => "programs: typed chains (random walk over i64 / usize / bool / () / Option / Result<_, i64> / Vec / tuples / iterators, nesting <= 3), 1-3 independent chains per invocation, length 1-8 plus closing; program i is forced to contain operator spelling i mod 22 and uses macro name i mod 12 (async macros: half sync chains closed with `-> ready`, half chains over real futures and streams - FutureExt / TryFutureExt / StreamExt / TryStreamExt methods incl. `^^>` of futures of futures and streams of streams, `->` receiving the future itself, `~` where a step ends in a future; `??` meaning `.inspect`); operands fully typed, in varied shapes (call returning a closure, typed closure, closure with return type, parenthesised, macro call, block capture), `~` at random positions in the non-try sync macros; inputs: 8 boundary seeds + proptest-free hash-derived seeds building the initial values (None / Err / empty and non-empty vectors included). Oracle: differential against the documented method chain with the same operand text compiled in the same binary - Debug of the result, ordered callback-invocation trace (per branch when branches run on threads), multiset of all events; the macro side not compiling while the reference side does is a violation, the reverse is a generator bug (exit 2). Non-trivial = >= 2 operators and >= 1 callback invoked on that input",
         Which::C10 => "chain stage: typed chains as in C01 (all 22 operator spellings forced in turn, all 12 macro names) with block captures on 35 % of the operands and the clone- and drop-counting value type `Ck` in half of the scalar positions (fold / try_fold initial values, iterator items, Option / Result payloads); oracle against the documented chain compiled in the same binary: equal multiset of evaluation events (every operand expression and capture once, every callback as often as the std method calls it - per element for iterator callbacks), equal number of clones of counted values, no counted value alive after the result is dropped. Non-trivial = >= 2 callbacks invoked and >= 1 capture",
         Which::C17 => "nesting stage: typed chains under all 12 macro names in which 45 % of the callback operands are closures around a nested macro invocation (any of the 12 names, chosen by the type the operand must return; async ones driven by a no-op-waker poll loop), block captures that evaluate a nested invocation, and initial values that are macro invocations; nested bodies are generated by the same chain generator, recursively to depth 3 (wrappers, captures, further nestings inside). Oracle (metamorphic + differential): the outer macro against the documented chain with the same operand text - so every nested invocation is evaluated once inside a macro expansion and once in plain Rust - equal results, callback traces and event multisets. Non-trivial = >= 2 operators and >= 1 callback invoked; classes count nestings by place, inner macro and depth",
         Which::C19 => "bounds stage: typed chains under join! / try_join! / join_async! / try_join_async! with 1-7 branches whose values include `Ns` (holds an Rc: neither Send nor Clone) and `Mv` (move-only) in 60 % of the scalar positions, and half of whose branches borrow - shared (`&Vec` iterated) or mutably (`iter_mut` with a callback that changes the element in place) - from locals of the calling function; oracle: the macro side compiles whenever the documented chain compiles (a new Clone / Send / 'static requirement is a compile error on the macro side only) and both give the same result and callback traces. Non-trivial = >= 2 operators and >= 1 callback invoked",
@@ -515,7 +590,7 @@ pub fn run(id: &str, tier: &str, seed: u64) -> i32 {
     ev.assumptions = vec![
         "rustc/cargo, std, futures 0.3.26 and tokio 1.26 behave as documented".into(),
         "the reference translation (README tables -> method chain) is written independently of join_impl; block-capture operands are hoisted on the reference side too, as the README documents".into(),
-        "async macros are exercised with sync chains closed by `-> ready` (the repository's own idiom); chains over real futures / streams are not generated".into(),
+        "futures and streams in the async chains are immediately ready (ready(), stream::iter): pending points are the business of C03 / C09".into(),
     ];
     let known = evid::Known::load();
     let mut runner = new_runner(seed, match which { Which::C01 => 0xc01, Which::C02 => 0xc02, Which::C10 => 0xc10, Which::C11 => 0xc11, Which::C19 => 0xc19, Which::C17 => 0xc17 }, 1);
@@ -535,6 +610,7 @@ pub fn run(id: &str, tier: &str, seed: u64) -> i32 {
             tally(&b.ops, &mut prev, &mut ev.classes, 0);
         }
         *ev.classes.entry(format!("macro {}", p.mac)).or_default() += 1;
+        *ev.classes.entry(format!("family {}", match p.fam { Family::Sync => "sync", Family::AsyncClosed => "async: sync chain closed with -> ready", Family::AsyncReal => "async: real futures / streams" })).or_default() += 1;
         for (place, inner, depth) in &p.nestings {
             *ev.classes.entry(format!("nested in {} ({} inside {}) depth {}", place, if inner.contains("async") { "async" } else if inner.contains("spawn") { "spawn" } else { "sync" }, if p.mac.contains("async") { "async" } else if p.mac.contains("spawn") { "spawn" } else { "sync" }, depth + 1)).or_default() += 1;
         }
@@ -609,11 +685,15 @@ pub fn run(id: &str, tier: &str, seed: u64) -> i32 {
             break;
         }
         let (code, ref_from, n_ops, concurrent) = case_code(&cur.0, 0);
+        let short_circuit_flag = {
+            let k = macro_kind(&cur.0.mac);
+            k.is_async && k.is_try && cur.0.branches.len() >= 2
+        };
         let replay = evid::write_replay(
             id,
             &json!({"property": id, "engine": "R-chain", "mode": id, "seed": seed, "tier": tier, "inputs": inputs, "macro": cur.0.mac,
                     "branches": cur.0.branches.iter().map(render_branch_macro).collect::<Vec<_>>(),
-                    "code": code, "ref_from": ref_from, "n_ops": n_ops, "concurrent": concurrent, "compile_failure": cur.2, "violation": cur.1}),
+                    "code": code, "ref_from": ref_from, "n_ops": n_ops, "concurrent": concurrent, "short_circuit": short_circuit_flag, "compile_failure": cur.2, "violation": cur.1}),
         );
         evid::print_violation(id, &replay);
         exit = 1;
@@ -638,7 +718,7 @@ pub fn replay(v: &Value) -> i32 {
     let case = CaseSrc {
         idx: 0,
         code,
-        table: format!("        ChainCase {{ idx: 0, mac: case_0_mac, refn: case_0_ref, n_ops: {}, concurrent: {} }},\n", v["n_ops"].as_u64().unwrap_or(2), v["concurrent"].as_bool().unwrap_or(false)),
+        table: format!("        ChainCase {{ idx: 0, mac: case_0_mac, refn: case_0_ref, n_ops: {}, concurrent: {}, short_circuit: {} }},\n", v["n_ops"].as_u64().unwrap_or(2), v["concurrent"].as_bool().unwrap_or(false), v["short_circuit"].as_bool().unwrap_or(false)),
         ref_from: v["ref_from"].as_u64().map(|x| x as usize),
     };
     let env = vec![("JV_SEED".to_string(), v["seed"].as_u64().unwrap_or(1).to_string()), ("JV_BUDGET".to_string(), v["inputs"].as_u64().unwrap_or(64).to_string()), ("JV_MODE".to_string(), id.clone())];
